@@ -1222,6 +1222,25 @@ def emit_cwpsk():
             "Open Scope Z_scope.\nOpen Scope bool_scope.\n\n" + cfun.render(alld))
 
 
+def emit_cexpw():
+    """dtw_expand_wps_slice (compact array -> block of the full matrix), translated WHOLE"""
+    import cfun
+    d = os.path.join(REPO, "src/DTAIDistanceC/DTAIDistanceC")
+    src = open(os.path.join(d, "dd_dtw.c")).read()
+    hdr = open(os.path.join(d, "dd_dtw.h")).read()
+    try:
+        alld = cfun.translate_function(src, hdr, "dtw_expand_wps_slice", {"wps": "wps_len", "full": "full_len"},
+                                       {"full": "full_len"}, ["wps_len"], ["wps"])
+    except cfun.TranslateError as exc:
+        raise TranslateError("cfun: %s" % exc)
+    check_fv([(name, [p for p, _ in params], text) for name, params, ret, text in alld])
+    return ("(* GENERATED by tools/translate_c.py (tools/cfun.py) from src/DTAIDistanceC/DTAIDistanceC/dd_dtw.c -- do not edit *)\n"
+            "(* dtw_expand_wps_slice translated WHOLE; wps_len / full_len = number of cells of the compact array and of the\n"
+            "   caller's output block; p_* = the members of the struct dtw_wps_parts returned *)\n"
+            "From Coq Require Import ZArith Bool List.\nFrom DV Require Import Prelude Cost CLang.\nImport ListNotations.\n"
+            "Open Scope Z_scope.\nOpen Scope bool_scope.\n\n" + cfun.render(alld))
+
+
 def write_gen(outdir, fname, text):
     os.makedirs(outdir, exist_ok=True)
     p = os.path.join(outdir, fname)
@@ -1239,6 +1258,7 @@ def _main():
     write_gen(outdir, "Gen_cdist.v", emit_cdist())
     write_gen(outdir, "Gen_ced.v", emit_ced())
     write_gen(outdir, "Gen_cwpsk.v", emit_cwpsk())
+    write_gen(outdir, "Gen_cexpw.v", emit_cexpw())
     try:
         text = emit_loc(analyse_loc())
     except (TranslateError, OSError) as exc:
